@@ -8,6 +8,7 @@ CFV = "ConditionFulfilledValue"
 @contract("ahbicht.models.condition_nodes:ConditionFulfilledValue.__and__", prop=["C03", "C04", "C05"])
 class And4:
     """result == and4(self, other) on every path; never raises; never falls through to None"""
+    runtime_checkable = True
     params = dict(self=Enum(CFV), other=Enum(CFV))
     raises = {}
 
@@ -20,6 +21,7 @@ class And4:
 
 @contract("ahbicht.models.condition_nodes:ConditionFulfilledValue.__or__", prop=["C03", "C04", "C05"])
 class Or4:
+    runtime_checkable = True
     params = dict(self=Enum(CFV), other=Enum(CFV))
     raises = {}
 
@@ -32,6 +34,7 @@ class Or4:
 
 @contract("ahbicht.models.condition_nodes:ConditionFulfilledValue.__xor__", prop=["C03", "C04", "C05"])
 class Xor4:
+    runtime_checkable = True
     params = dict(self=Enum(CFV), other=Enum(CFV))
     raises = {}
 
